@@ -25,9 +25,14 @@ pub fn dispatch(cmd: &str, a: &Args) -> Option<Result<()>> {
     }
 }
 
-/// Is any thread of this process other than the caller in state R (running/runnable) or D?
-fn other_thread_active() -> bool {
+/// Activity of the other threads of this process: (any thread in uninterruptible I/O wait, total CPU ticks consumed so far).
+/// A thread that is merely RUNNABLE is not counted as such (on a loaded machine a polling loop that wakes every 10 ms is
+/// "runnable" most of the time while it waits for a CPU); what counts is the CPU time actually consumed: working threads burn
+/// whole ticks, a sleeping poll loop about 0.2 % of one.
+fn other_threads_activity() -> (bool, u64) {
     let me = unsafe { libc::syscall(libc::SYS_gettid) } as i64;
+    let mut in_io = false;
+    let mut ticks = 0u64;
     if let Ok(rd) = std::fs::read_dir("/proc/self/task") {
         for e in rd.flatten() {
             let tid: i64 = e.file_name().to_string_lossy().parse().unwrap_or(0);
@@ -35,17 +40,20 @@ fn other_thread_active() -> bool {
                 continue;
             }
             if let Ok(st) = std::fs::read_to_string(e.path().join("stat")) {
-                // state is the field after the last ')'
+                // state is the field after the last ')'; utime and stime are the 12th and 13th fields after it
                 if let Some(p) = st.rfind(')') {
-                    let state = st[p + 1..].trim_start().chars().next().unwrap_or('S');
-                    if state == 'R' || state == 'D' {
-                        return true;
+                    let f: Vec<&str> = st[p + 1..].split_whitespace().collect();
+                    if f.first().map(|x| *x == "D").unwrap_or(false) {
+                        in_io = true;
+                    }
+                    if f.len() > 12 {
+                        ticks += f[11].parse::<u64>().unwrap_or(0) + f[12].parse::<u64>().unwrap_or(0);
                     }
                 }
             }
         }
     }
-    false
+    (in_io, ticks)
 }
 
 fn num(e: &Event, k: &str) -> i64 {
@@ -92,15 +100,24 @@ fn drive(a: &Args) -> Result<()> {
         let _ = tx.send(r);
     });
     let mut stalled = false;
+    let mut cpu_hist: std::collections::VecDeque<(u64, u64)> = std::collections::VecDeque::new();
     let result = loop {
         match rx.recv_timeout(std::time::Duration::from_millis(200)) {
             Ok(r) => break Some(r),
             Err(std::sync::mpsc::RecvTimeoutError::Timeout) => {
-                // progress = a hook event, or any other thread of this process runnable / in I/O
-                // (finalize compresses metadata without emitting events; on a loaded machine a
-                // runnable thread may wait long for a CPU). A stuck pipeline has every thread asleep.
-                if other_thread_active() {
-                    last_progress.store(t0.elapsed().as_millis() as u64, Ordering::Relaxed);
+                // progress = a hook event, or any other thread of this process in I/O or CONSUMING CPU
+                // (finalize compresses metadata without emitting events). A stuck pipeline has every thread asleep
+                // or polling with sleeps (drain / sync_and_flush wait loops), which consumes next to nothing.
+                // (window of 5 s; >= 10 ticks = 100 ms of CPU in it, i.e. 2 % of one core, is work - a poll loop stays far below)
+                let (in_io, ticks) = other_threads_activity();
+                let now_ms = t0.elapsed().as_millis() as u64;
+                cpu_hist.push_back((now_ms, ticks));
+                while cpu_hist.front().map(|x| now_ms - x.0 > 5000).unwrap_or(false) && cpu_hist.len() > 1 {
+                    cpu_hist.pop_front();
+                }
+                let burned = ticks.saturating_sub(cpu_hist.front().map(|x| x.1).unwrap_or(ticks));
+                if in_io || burned >= 10 {
+                    last_progress.store(now_ms, Ordering::Relaxed);
                 }
                 let idle = (t0.elapsed().as_millis() as u64).saturating_sub(last_progress.load(Ordering::Relaxed));
                 if idle > stall_secs * 1000 {
